@@ -96,28 +96,31 @@ Definition is_private_key_jwt (cl : clienttable) (id : string) : bool :=
 
 (* an assertion produced by a call [h] of one of the library's client helpers configured
    for this provider's issuer (what the helper writes into iss, sub, aud, iat and exp is
-   the helper's business and NOT a premise here: only WHEN it was called and the lifetime
-   it was asked for), for a registered key, presented after the call and within that
+   the helper's business and NOT a premise here: only WHEN it was called, for which client
+   [h_client h] and the lifetime it was asked for), for a key registered for that client, presented after the call and within that
    lifetime to a verifier with non-negative offset whose max age - whatever it is - covers
    the time since the call (1.5 s of slack: iat is cut to whole seconds, the bound is
-   rounded) *)
+   rounded) and whose configured subject check lets the subject the caller ASKED the helper
+   for through (no delegation asked: sub = the client, passes the default and an accept-all
+   check; oidc.JWTProfileDelegatedSubject(s): needs a custom check that allows s - "sub =
+   iss unless a custom subject check is configured") *)
 Definition must_accept (e : entry) (v : vcfg) (t : keytable) (cl : clienttable) (t0 t1 : Z)
     (h : hcall) (d : sigdesc) (c : claims) : bool :=
-  sd_wf d && signed_by_named_client t (c_iss c) d
-  && match v_sub v with SubIsIssuer | SubAny => true | _ => false end
+  sd_wf d && signed_by_named_client t (h_client h) d
+  && subject_allowed (v_sub v) (h_client h) (asked_sub (h_sub h) (h_client h))
   && Z.leb 0 (v_offset v)
   && Z.leb second (h_t0 h) && Z.leb (h_t0 h) (h_t1 h) && Z.leb (h_t1 h) t0
   && (Z.eqb (v_max_age v) 0 || Z.leb (t1 - h_t0 h + second + half_second) (v_max_age v))
   && Z.leb (t1 + v_offset v + second) (h_t0 h + h_life h * second)
   && match e with
-     | EPrivateKey => is_private_key_jwt cl (c_iss c)
+     | EPrivateKey => is_private_key_jwt cl (h_client h)
      | ERouter legacy ep _ owner =>
          match ep_auth legacy ep with
-         | AKPk => is_private_key_jwt cl (c_iss c)
-         | AKLookup => match lookup_client cl (c_iss c) with Some _ => true | None => false end
+         | AKPk => is_private_key_jwt cl (h_client h)
+         | AKLookup => match lookup_client cl (h_client h) with Some _ => true | None => false end
          | AKVerify => true
          end
-         && (negb (ep_owned ep) || String.eqb (c_iss c) owner)   (* it redeems what is its own *)
+         && (negb (ep_owned ep) || String.eqb (h_client h) owner)   (* it redeems what is its own *)
      | _ => true
      end.
 
